@@ -46,7 +46,7 @@ macro_rules! hist_check {
 }
 
 fn base() -> DmlCfg {
-    DmlCfg { tables: 1, pk: false, composite_pk: false, uniques: false, not_null: false, checks: false, fks: false, self_fk: false, user_indexes: false, unique_indexes: false, max_rows: 10, key_updates: true, inline_fk: false, setnull_on_notnull: true, replace: false, odku: false }
+    DmlCfg { tables: 1, pk: false, composite_pk: false, uniques: false, not_null: false, checks: false, fks: false, self_fk: false, user_indexes: false, unique_indexes: false, max_rows: 10, key_updates: true, inline_fk: false, setnull_on_notnull: true, two_fks_same_parent: true, replace: false, odku: false }
 }
 
 hist_check!(
@@ -92,7 +92,7 @@ hist_check!(
     C12,
     "C12",
     Focus::C12,
-    |g: &GenCfg| DmlCfg { tables: 3, pk: true, fks: true, self_fk: !(g.avoid_known && g.known_open.iter().any(|k| k.contains("self_reference"))), not_null: true, inline_fk: true, setnull_on_notnull: !g.avoiding("c12.orphan.after_failed_update") && !g.avoiding("c12.orphan.after_failed_delete"), ..base() },
+    |g: &GenCfg| DmlCfg { tables: 3, pk: true, fks: true, self_fk: !(g.avoid_known && g.known_open.iter().any(|k| k.contains("self_reference"))), not_null: true, inline_fk: true, two_fks_same_parent: !(g.avoid_known && g.known_open.iter().any(|k| k.contains("two_fks_same_parent"))), setnull_on_notnull: !g.avoiding("c12.orphan.after_failed_update") && !g.avoiding("c12.orphan.after_failed_delete"), ..base() },
     400_000,
     10_000_000,
     14,
